@@ -23,6 +23,9 @@ numeric = Union[int, float]
 
 TACTICS_ORDER = [1, 2, 3, 4, 5]  # noqa: WPS407
 
+# relative tolerance granted to LP optima when deciding containment (the solver's own tolerance is 1e-7)
+CONTAINMENT_TOLERANCE = 1e-6
+
 
 class PolyhedralTerm(Term):
     """Polyhedral terms are linear inequalities over a list of variables."""
@@ -1118,7 +1121,9 @@ class PolyhedralTermList(TermList):  # noqa: WPS338
                 is_refinement = False
                 break
             else:
-                if -res["fun"] <= b_temp:  # noqa: WPS309
+                # the LP optimum carries the solver's round-off: compare with a tolerance, which has to stay
+                # below the relaxation of 1 applied to the constraint in the LP above
+                if -res["fun"] <= b_temp + min(CONTAINMENT_TOLERANCE * (1 + abs(b_temp)), 0.5):  # noqa: WPS309
                     logging.debug("Redundant constraint")
                 else:
                     is_refinement = False
